@@ -14,7 +14,7 @@ From SV Require Import Proofs.TcpProgressBase Proofs.TcpProgressFrame Proofs.Tcp
   Proofs.TcpProgressSafe Proofs.TcpProgressHsNet Proofs.TcpProgressHsInit Proofs.TcpProgressHsLive Proofs.TcpProgressHsLive2
   Proofs.TcpProgressExample Proofs.TcpProgressWitness Proofs.TcpProgressSafeWitness
   Proofs.TcpProgressZwDup Proofs.TcpProgressZw1 Proofs.TcpProgressZw2 Proofs.TcpProgressZw3 Proofs.TcpProgressZwWitness
-  Proofs.TcpProgressZw4 Proofs.TcpProgressZw5 Proofs.TcpProgressZw6.
+  Proofs.TcpProgressZw4 Proofs.TcpProgressZw5 Proofs.TcpProgressZwWitness2 Proofs.TcpProgressZw6.
 
 Definition zw_full_sched : list net_event :=
   [NPoll SA true; NDeliver SB 0; NPoll SB true; NDeliver SA 0; NSend SA [1;2;3;4;5;6;7;8;9;10;11;12]; NPoll SA true;
@@ -114,6 +114,92 @@ Theorem transfer_zw_from_net_init_applies :
 Proof.
   destruct zcfg_good as (Ga & Gb).
   apply (zfull_package zcfg_a zcfg_b zw_full_sched 5000 5000 10000 Ga Gb); try exact zfull_check_ok.
+  - split; reflexivity.
+  - split; reflexivity.
+  - cbn. lia.
+  - cbn. exact I.
+Qed.
+
+(* ---------------------------------------------------------------------------------------- *)
+(* the theorem for a fault prefix: the window update is lost before delivery becomes reliable  *)
+(* ---------------------------------------------------------------------------------------- *)
+Definition zwl_check (ca cb : ep_config) (pre suf : list net_event) (Dt Da L : Z) (n : nat) : bool :=
+  match net_init ca cb with
+  | Ok st0 =>
+      net_started st0 && forallb (app_evb SA) pre &&
+      match net_run st0 pre with
+      | Ok st =>
+          tcp_state_eqb (s_state (net_sock st SA)) Established && tcp_state_eqb (s_state (net_sock st SB)) Established &&
+          opts_okb st && fair_runb Dt Da (fa_init Dt Da st) st suf &&
+          once_runb Dt Da (fa_init Dt Da st) st suf && run_zextrab st suf && forallb (app_evb SA) suf &&
+          (L <=? l_len (ep_written (net_get st SA))) &&
+          (Z.max 0 (L - una_off (net_get st SA)) + Z.max 0 (L - read_off (net_get st SB)) <=? Z.of_nat n) &&
+          (0 <=? Dt) && (0 <=? Da) &&
+          match net_run st suf with
+          | Ok st' => (net_now st SA + Z.of_nat n * Wz Dt Da <? net_now st' SA) &&
+                      (l_len (ep_written (net_get st' SA)) <? 2 ^ 30) && (l_len (ep_written (net_get st' SB)) <? 2 ^ 30)
+          | _ => false
+          end
+      | _ => false
+      end
+  | _ => false
+  end.
+
+Lemma zwl_package ca cb pre suf Dt Da Dack L n :
+  cfg_good ca -> cfg_good cb -> cfg_plain ca -> cfg_plain cb -> c_addr ca <> 0 ->
+  match c_ack_delay cb with Some d => 0 <= d <= Dack | None => True end ->
+  zwl_check ca cb pre suf Dt Da L n = true ->
+  exists st0 st st',
+    start_ok Dack ca cb st0 /\ net_run st0 pre = Ok st /\ net_run st suf = Ok st' /\
+    reliable_schedule Dt Da st suf /\ run_all (zextra SA) st suf /\
+    exists p1 p2 st1, suf = p1 ++ p2 /\ net_run st p1 = Ok st1 /\ net_run st1 p2 = Ok st' /\
+                      L <= read_off (net_get st1 SB).
+Proof.
+  intros Ga Gb Pa Pb Haddr Hdel H. unfold zwl_check in H.
+  destruct (net_init ca cb) as [st0|e|] eqn:Ei; try discriminate.
+  apply andb_true_iff in H. destruct H as (H & Hrest).
+  apply andb_true_iff in H. destruct H as (Hst & Hpa).
+  destruct (net_run st0 pre) as [st|e|] eqn:Ep; try discriminate.
+  apply andb_true_iff in Hrest. destruct Hrest as (H & Hend).
+  apply andb_true_iff in H. destruct H as (H & Hd2).
+  apply andb_true_iff in H. destruct H as (H & Hd1).
+  apply andb_true_iff in H. destruct H as (H & Hn).
+  apply andb_true_iff in H. destruct H as (H & HL).
+  apply andb_true_iff in H. destruct H as (H & Happ).
+  apply andb_true_iff in H. destruct H as (H & Hzx).
+  apply andb_true_iff in H. destruct H as (H & Honce).
+  apply andb_true_iff in H. destruct H as (H & Hf).
+  apply andb_true_iff in H. destruct H as (H & Ho).
+  apply andb_true_iff in H. destruct H as (Hea & Heb).
+  destruct (net_run st suf) as [st'|e|] eqn:Es; try discriminate.
+  apply andb_true_iff in Hend. destruct Hend as (Hend & Hsb).
+  apply andb_true_iff in Hend. destruct Hend as (Hclk & Hsa).
+  apply Z.leb_le in Hd1, Hd2, HL, Hn. apply Z.ltb_lt in Hclk, Hsa, Hsb.
+  assert (Hstart : start_ok Dack ca cb st0) by (unfold start_ok; auto 10).
+  assert (Hrel : reliable_schedule Dt Da st suf).
+  { split; [|exact (proj1 (once_runb_iff _ _ _ _ _) Honce)].
+    split; [lia|]. split; [lia|]. split; [apply opts_okb_sound; exact Ho | apply fair_runb_sound; exact Hf]. }
+  pose proof (run_zextrab_sound suf st Hzx) as Hz.
+  assert (Hest : forall z, s_state (net_sock st z) = Established).
+  { intros z. destruct z; apply tcp_state_eqb_eq; assumption. }
+  exists st0, st, st'. split; [exact Hstart|]. split; [exact Ep|]. split; [exact Es|]. split; [exact Hrel|]. split; [exact Hz|].
+  apply (oneway_delivery_zw_from_net_init Dt Da Dack ca cb st0 n pre suf st st' L Hstart (app_evb_sound SA _ Hpa) Ep Hest Hrel
+           (app_evb_sound SA _ Happ) Es); try assumption.
+  intros z. destruct z; cbn [net_get] in *; lia.
+Qed.
+
+Lemma zwl_check_ok : zwl_check zcfg_a zcfg_b zww_prefix zwd_suffix 5000 5000 12 8 = true.
+Proof. vm_compute. reflexivity. Qed.
+
+Theorem delivery_zw_from_net_init_applies :
+  exists st0 st st',
+    start_ok 10000 zcfg_a zcfg_b st0 /\ net_run st0 zww_prefix = Ok st /\ net_run st zwd_suffix = Ok st' /\
+    reliable_schedule 5000 5000 st zwd_suffix /\ run_all (zextra SA) st zwd_suffix /\
+    exists p1 p2 st1, zwd_suffix = p1 ++ p2 /\ net_run st p1 = Ok st1 /\ net_run st1 p2 = Ok st' /\
+                      12 <= read_off (net_get st1 SB).
+Proof.
+  destruct zcfg_good as (Ga & Gb).
+  apply (zwl_package zcfg_a zcfg_b zww_prefix zwd_suffix 5000 5000 10000 12 8 Ga Gb); try exact zwl_check_ok.
   - split; reflexivity.
   - split; reflexivity.
   - cbn. lia.
